@@ -277,7 +277,9 @@ class ColumnWriter:
         if dict_off is not None:
             md["dictionary_page_offset"] = dict_off
         if cs.get("write_stats"):
-            st = {"null_count": sum(1 for r, d, v in slots if d != max_def)} if not (max_rep or cs.get("omit_null_count")) else {}
+            # (for a LIST / MAP leaf only on request: writers of the parquet-mr lineage count every level entry below the maximum
+            #  definition level as a null - an empty list as much as a missing row)
+            st = {"null_count": sum(1 for r, d, v in slots if d != max_def)} if not ((max_rep and not cs.get("nested_null_count")) or cs.get("omit_null_count")) else {}
             key = _order_key(ptype, cs.get("converted"))
             vv = [v for v in values if not (isinstance(v, float) and v != v)]
             if key is not None and vv and cs.get("write_minmax", True):
